@@ -41,6 +41,19 @@ Qed.
 Lemma new_region_range d : r_start (new_region d) = d_start d /\ r_end (new_region d) = d_end d /\ r_id (new_region d) = d_id d.
 Proof. repeat split. Qed.
 
+Lemma inherit_range r deleted : r_start (inherit r deleted) = r_start r /\ r_end (inherit r deleted) = r_end r /\ r_id (inherit r deleted) = r_id r /\
+  r_ver (inherit r deleted) = r_ver r /\ r_conf (inherit r deleted) = r_conf r.
+Proof. unfold inherit, keep_bk, with_work. destruct deleted as [|old t]; [repeat split|]. destruct (r_reason old =? 1); repeat split. Qed.
+Lemma as_stored_range c lr : r_start (as_stored c lr) = r_start lr /\ r_end (as_stored c lr) = r_end lr /\ r_id (as_stored c lr) = r_id lr /\
+  r_ver (as_stored c lr) = r_ver lr /\ r_conf (as_stored c lr) = r_conf lr.
+Proof.
+  unfold as_stored. destruct (fst (insert_region c (stamp (c_sepochs c) lr))); [|repeat split].
+  destruct (inherit_range (stamp (c_sepochs c) lr) (snd (fst (remove_intersecting (stamp (c_sepochs c) lr) (c_sorted c))))) as [A [B [C [D E]]]].
+  rewrite A, B, C, D, E. repeat split.
+Qed.
+Lemma holds_as_stored is_end c lr key : holds is_end (as_stored c lr) key = holds is_end lr key.
+Proof. unfold holds, r_contains, r_contains_end. destruct (as_stored_range c lr) as [A [B _]]. rewrite A, B. reflexivity. Qed.
+
 Section PD.
 Variable pd : nat -> pd_req -> pd_ans.
 Variable budget : nat.
@@ -82,22 +95,22 @@ Proof.
     | (Err e, t1) => (Err e, c, t1)
     | (Ok lr, t1) =>
         let '(ok, c1) := insert_new c lr in
-        if ok then (Ok lr, c1, t1)
+        if ok then (Ok (as_stored c lr), c1, t1)
         else match load_region pd budget fuel t1 key is_end false with
              | (Err e, t2) => (Err e, c1, t2)
-             | (Ok lr2, t2) => (Ok lr2, snd (insert_new c1 lr2), t2)
+             | (Ok lr2, t2) => (Ok (as_stored c1 lr2), snd (insert_new c1 lr2), t2)
              end
     end = (Ok r, c', t') -> x = tt -> holds is_end r key = true).
   { intros _ H _. destruct (load_region pd budget fuel t key is_end false) as [[lr|e] t1] eqn:E1; [|discriminate H].
     destruct (insert_new c lr) as [ok c1]. destruct ok.
-    - injection H as <- _ _. eapply load_region_holds; [| |exact E1]; [exact Hk|discriminate].
+    - injection H as <- _ _. rewrite holds_as_stored. eapply load_region_holds; [| |exact E1]; [exact Hk|discriminate].
     - destruct (load_region pd budget fuel t1 key is_end false) as [[lr2|e] t2] eqn:E2; [|discriminate H].
-      injection H as <- _ _. eapply load_region_holds; [| |exact E2]; [exact Hk|discriminate]. }
+      injection H as <- _ _. rewrite holds_as_stored. eapply load_region_holds; [| |exact E2]; [exact Hk|discriminate]. }
   destruct (search (c_sorted c) key is_end) as [x|] eqn:Es; [|intros H; exact (Hmiss tt H eq_refl)].
   destruct (r_expired x); [intros H; exact (Hmiss tt H eq_refl)|].
   destruct (flagged x).
   - destruct (load_region pd budget fuel t key is_end false) as [[lr|e] t1] eqn:E1.
-    + intros H; injection H as <- _ _. eapply load_region_holds; [| |exact E1]; [exact Hk|discriminate].
+    + intros H; injection H as <- _ _. rewrite holds_as_stored. eapply load_region_holds; [| |exact E1]; [exact Hk|discriminate].
     + intros H; injection H as <- _ _. eapply search_contains; exact Es.
   - intros H; injection H as <- _ _. eapply search_contains; exact Es.
 Qed.
